@@ -228,5 +228,5 @@ func mergeUpdateValidatorStakesEvents() *eventsMergerImpl[Validator] {
 }
 
 func mergeValidatorHealthCheckEvents() *eventsMergerImpl[dbs.DbHealthCheck] {
-	return newEventsMerger[dbs.DbHealthCheck](TagValidatorHealthCheck, withUniqueEventOverwrite())
+	return newEventsMerger[dbs.DbHealthCheck](TagValidatorHealthCheck, withHealthCheckMerged())
 }
